@@ -484,6 +484,17 @@ def _canon_read(st):
 
 
 def run_impl(case):
+    # 6. a crash is a verdict: the Cython hybrid-36 code (boundscheck off) runs in a forked child
+    if case.get("kind") in ("h36", "h36dec"):
+        from common import sandbox
+        r = sandbox.run_forked(_run_impl, case, timeout=120)
+        if r[0] == "ok":
+            return r[1]
+        return ["CRASH" if r[0] == "crash" else r[0].upper()] * len(case["ops"])
+    return _run_impl(case)
+
+
+def _run_impl(case):
     from biotite.structure.io.pdb import PDBFile
     from biotite.structure.io.pdb.hybrid36 import decode_hybrid36, encode_hybrid36
     out = []
@@ -648,10 +659,13 @@ def carriable_ref(S):
 
 def oracle(case):
     kind = case.get("kind")
-    if kind == "h36range":
-        return _oracle_h36range(case)
-    if kind in ("h36",):
-        return _oracle_h36ops(case)
+    if kind in ("h36range", "h36", "h36dec", "h36spell"):
+        from common import sandbox
+        fn = {"h36range": _oracle_h36range, "h36": _oracle_h36ops, "h36dec": _oracle_h36dec, "h36spell": _oracle_h36spell}[kind]
+        r = sandbox.run_forked(fn, case, timeout=300)
+        if r[0] == "ok":
+            return r[1]
+        return [(f"C07/hybrid36/{r[0]}", f"the hybrid-36 code ended with {r} on this case")]
     if kind == "altloc":
         return _oracle_alt(case)
     if "ops" not in case or not any(op.startswith("write") for op in case["ops"]):
@@ -664,10 +678,10 @@ def oracle(case):
     if S.get("box") is None and extra.get("box") is not None:
         S = dict(S, box=[[f32(v) for v in row] for row in extra["box"]])
     hard, soft = limits(S)
-    v = _oracle_purity(S, extra)
+    v = [] if case.get("big") else _oracle_purity(S, extra)
     if v:
         return v
-    if case.get("big") is None and int(signature(case)[:4], 16) % 2 == 0:
+    if case.get("big") is None and (case.get("force_api") or int(signature(case)[:4], 16) % 2 == 0):
         v = _oracle_api(S, extra)
         if v:
             return v
@@ -757,6 +771,9 @@ def oracle(case):
         try:
             st = _read_back(f.lines, S["flags"]["bonds"])
         except Exception as e:  # noqa: BLE001
+            ids_ = [a["id"] if S["flags"]["id"] else i + 1 for i, a in enumerate(S["atoms"])]
+            if type(e).__name__ == "InvalidFileError" and S["flags"]["bonds"] and ids_ and max(ids_) != ids_[-1]:
+                return v          # documented refusal: atom ids not increasing
             v.append(("C07/roundtrip/read-error", f"{type(e).__name__}: {e}"))
             return v
         bad = None
@@ -782,7 +799,7 @@ def oracle(case):
                             bad = bad or f"coord model {m} atom {i}"
             if S["flags"]["bonds"] and not bad:
                 ids = [a["id"] if S["flags"]["id"] else i + 1 for i, a in enumerate(S["atoms"])]
-                if all(x > 0 for x in ids) and all(x < y for x, y in zip(ids, ids[1:])):
+                if all(x > 0 for x in ids) and len(set(ids)) == len(ids):
                     got = {(int(min(x, y)), int(max(x, y))) for x, y, _ in st.bonds.as_array()}
                     if got != carriable_ref(S):
                         bad = f"bonds {sorted(got)} != {sorted(carriable_ref(S))}"
@@ -977,8 +994,8 @@ def _respell(arr, S, how, np):
             a.set_annotation("b_factor", a.b_factor.astype(">f8"))     # byte-swapped
         if f["q"]:
             a.set_annotation("charge", a.charge.astype(">i4"))
-        if a.box is not None:
-            a.box = np.asfortranarray(a.box)     # same dtype: the cell trigonometry is computed in the precision of the box
+        # the box is NOT re-laid out: its cell angles are float32 dot products whose last bit depends on the summation order
+        # (contiguous vs strided), which flips a rounding tie such as 45.005 -> 45.00/45.01 or arccos near 0/180 degrees
     return a
 
 
@@ -1189,6 +1206,52 @@ def _oracle_h36ops(case):
                 back = (type(e).__name__, None)
             if len(s) > wd or back != (n, n):
                 v.append((f"C07/hybrid36/roundtrip-width-{wd}", f"encode_hybrid36({n}, {wd}) = {s!r} decodes to {back}"))
+    return v
+
+
+def _oracle_h36dec(case):
+    """decoding arbitrary ASCII text either raises a ValueError or returns an integer (never anything else, never a crash)"""
+    from biotite.structure.io.pdb.hybrid36 import decode_hybrid36
+    for op in case["ops"]:
+        t = unhx(op.split()[1])
+        try:
+            r = decode_hybrid36(t)
+        except ValueError:
+            continue
+        except Exception as e:  # noqa: BLE001
+            return [("C07/hybrid36/decode-error-class", f"decode_hybrid36({t!r}) raised {type(e).__name__}")]
+        if not isinstance(r, int):
+            return [("C07/hybrid36/decode-type", f"decode_hybrid36({t!r}) returned {type(r).__name__}")]
+    return []
+
+
+def _oracle_h36spell(case):
+    """hybrid-36 functions called with NumPy scalars of several widths denote the same numbers"""
+    import numpy as np
+    from biotite.structure.io.pdb.hybrid36 import decode_hybrid36, encode_hybrid36, max_hybrid36_number
+    v = []
+    for w in (1, 2, 3, 4, 5):
+        want = 10 ** w - 1 + 52 * 36 ** (w - 1)
+        for dt in (np.int8, np.uint8, np.int16, np.uint16, np.int32, np.uint32, np.int64, np.uint64):
+            try:
+                got = int(max_hybrid36_number(dt(w)))
+            except Exception as e:  # noqa: BLE001
+                got = "ERR:" + type(e).__name__
+            if got != want:
+                cls = "narrow-int" if np.dtype(dt).itemsize <= 2 else np.dtype(dt).name
+                v.append((f"C07/hybrid36/max_hybrid36_number/numpy-{cls}-length",
+                          f"max_hybrid36_number(np.{np.dtype(dt).name}({w})) = {got}, expected {want}"))
+    for n, w in case["numbers"]:
+        ref = encode_hybrid36(n, w)
+        for dn in (np.int32, np.int64, np.uint32):
+            for dw in (np.int8, np.uint8, np.int64, np.uint16):
+                try:
+                    got = encode_hybrid36(dn(n), dw(w))
+                except Exception as e:  # noqa: BLE001
+                    got = "ERR:" + type(e).__name__
+                if got != ref or decode_hybrid36(str(np.str_(got))) != n:
+                    v.append(("C07/hybrid36/numpy-scalar-arguments", f"encode_hybrid36(np.{np.dtype(dn).name}({n}), np.{np.dtype(dw).name}({w})) = {got!r}, expected {ref!r}"))
+                    return v
     return v
 
 
@@ -1601,6 +1664,28 @@ def oracle_only(rng, tier):
     for w in (5,):
         for b in (10 ** 5, 10 ** 5 + 26 * 36 ** 4, H36_MAX[5] + 1):
             yield {"kind": "h36range", "w": w, "lo": max(0, b - 3000), "hi": min(b + 3000, H36_MAX[5] + 1)}
+    yield {"kind": "h36spell", "numbers": [(rng.choice([0, 9999, 10000, 1223055, 1223056, 2436111]), 4), (rng.choice([99999, 100000, 43770015, 43770016, 87440031]), 5),
+                                           (rng.randint(0, 2436111), 4), (rng.randint(0, 87440031), 5), (rng.randint(0, 61), 1)]}
+    # unique but unsorted atom ids with bonds (the reader needs the largest id last: otherwise InvalidFileError, never wrong bonds)
+    for _ in range(25 if quick else 300):
+        S = gen_struct(rng)
+        S["flags"].update(id=True, bonds=True)
+        n = len(S["atoms"])
+        ids = rng.sample(range(1, 90000), n)
+        if rng.random() < 0.6:
+            ids[-1] = max(ids) + 1
+        for a, i in zip(S["atoms"], ids):
+            a["id"] = i
+        pairs = [(i, j) for i in range(n) for j in range(i + 1, n)]
+        rng.shuffle(pairs)
+        S["bonds"] = pairs[:rng.randint(0, min(len(pairs), 2 * n))]
+        yield {"kind": "oracle-unsorted-ids", "struct": S, "extra": {}}
+    # exactly on the wrap point of the default numbering: 100001 atoms (hybrid-36: id 100000 = A0000)
+    if quick:
+        yield {"kind": "oracle-big", "big": True, "struct": _big_struct(100001, True), "extra": {}}
+    else:
+        for h in (True, False):
+            yield {"kind": "oracle-big", "big": True, "struct": _big_struct(100001, h), "extra": {}}
     # non-finite values and boxes: judged by the oracle only
     for _ in range(60 if quick else 600):
         S = gen_struct(rng)
@@ -1643,6 +1728,12 @@ def _one(**kw):
         else:
             a[k] = v
     return {"atoms": [a], "models": [[xyz]], "bonds": [], "flags": fl}
+
+
+def _big_struct(n, h36):
+    a = {"het": False, "id": 1, "name": "CA", "res": "ALA", "chain": "A", "resid": 1, "ins": "", "el": "C", "occ": 1.0, "bf": 0.0, "q": 0}
+    return {"atoms": [dict(a, resid=i % 9999 + 1) for i in range(n)], "models": [[[float(i % 1000), 1.0, -1.0] for i in range(n)]],
+            "bonds": [], "flags": {"h36": h36, "id": False, "b": False, "occ": False, "q": False, "bonds": False}}
 
 
 def corpus():
